@@ -13,8 +13,8 @@ CLAIMS = {
          'for every operand value, flag state, mode, architecture version; frame of dp_sem proved once.',
          'Scope: execute() of the opcode classes with condition passed (C05 covers the failing case) and field ranges as '
          'produced by decode; ADR, MOVT and the decode of operands (C06/C07) are not in these theorems.'),
- 'C02': ('seven representative classes (LDR immediate ARM/Thumb, LDR register ARM, LDRB immediate, LDRSH immediate, STR immediate, STRB register) proved equal to the architecture pseudocode with MemU instantiated by the emulator (C13/C14): address for offset/pre/post-indexed forms modulo 2^32, width, destination value (incl. legacy rotation, sign extension), base write-back only after a successful access, loads to the PC through LoadWritePC; memory hypotheses discharged on flat maps.',
-         'Partial: 24 further classes (byte/halfword/signed/register/Thumb forms, the unprivileged LDRT/STRT family, UNKNOWN stores) are compared three-way against the same parametric specification without theorems; doubleword, exclusive and literal forms are covered by the regenerated model and the whole-step correspondence only; operand extraction of the encodings is checked under C06/C07.'),
+ 'C02': ('31 single-register load/store classes proved equal to the architecture pseudocode (Spec/LoadStore.v, Spec/LoadStoreUnpriv.v) with MemU / MemU_unpriv instantiated by the emulator (C13/C14): LDR/LDRB/LDRH/LDRSB/LDRSH and STR/STRB/STRH in their immediate and register forms, ARM and Thumb, and the unprivileged LDRT/LDRBT/LDRHT/LDRSBT/LDRSHT/STRT/STRBT/STRHT: address for offset/pre/post-indexed forms modulo 2^32, width, destination value (incl. legacy rotation, zero/sign extension, UNKNOWN = 0 on a misaligned access without unaligned support), base write-back only after a successful access, loads to the PC via LoadWritePC of the loaded word; the memory hypotheses are shown satisfiable on flat maps.',
+         'Partial: doubleword, exclusive and literal forms are covered by the regenerated model and the whole-step correspondence only; register numbers are bounded as the encodings guarantee (Rt <= 14 where a PC destination is UNPREDICTABLE); Hyp mode is excluded for the unprivileged forms (UNPREDICTABLE); operand extraction of the encodings is checked under C06/C07.'),
  'C03': ('LDM/STM in all four addressing modes (IA, DA, DB, IB; ARM and Thumb LDM), PUSH and POP proved equal to the architectural loops by induction over the register list, for every register mask, base, W bit and state: start address and written-back base per mode, lowest register at the lowest address, consecutive words modulo 2^32, PC last, write-back only after all accesses succeeded, UNKNOWN stored for a written-back base that is not lowest (the code\'s lowest-set-bit helper proved equal to the specification\'s on all 65535 non-empty lists); the invariant they need is shown to hold on flat maps.',
          'Partial: the privileged members (user-register and exception-return LDM/STM, SRS, RFE) and the single-register PUSH/POP encodings that use MemU have executable specifications (Spec/BlockFamily.v) compared three-way incl. transfers that abort part-way under the MPU, without theorems; the PUSH;POP round trip is not stated separately.'),
  'C04': ('execute() of B, BL/BLX (immediate), BLX (register), BX, CBZ/CBNZ and the four PC-write primitives proved equal to the architectural operations for every state, offset, register and PC (incl. wrap at 2^32); the offset assembled by every branch encoding proved to be the sign-extended field for every instruction word; PC read value and sequential advance; alignment and link-value consequences.',
@@ -22,9 +22,9 @@ CLAIMS = {
  'C05': ('CurrentCond and the 16x16 ConditionPassed table proved for every machine state; every conditional opcode class (266 of 273, enumerated from the regenerated dispatcher) proved a no-op when its condition fails.',
          'Partial: the whole-step statement (a failing condition leaves everything but the PC and the IT state unchanged) is searched over members of 600 of the 602 encoding classes, not proved; "behaves as the unconditional instruction when it passes" is proved as transparency of the guard.'),
  'C06': ("ARM class selection proved, for every word of each group's architectural domain, against hand-written A5 tables by a reflective cube checker proved sound once: top-level routing and 21 groups (data-processing register / register-shifted register / immediate, multiply, halfword multiply, saturating, synchronization, miscellaneous, MSR-and-hints, extra load/store (+unprivileged), load/store word/byte, branch/block transfer, media routing, parallel signed/unsigned, packing, signed multiply/divide, coprocessor/SVC, unconditional, dp-and-miscellaneous routing); decode is a function of the word alone by type.",
-         'Partial: the memory-hints/Advanced-SIMD sub-decoder and the LDRSBT/LDRSHT routing cube are outside the theorems; operand extraction (register numbers, immediates, shifts, P/U/W, lists) is a table-driven three-way correspondence over 190 ARM encodings, not a theorem.'),
+         'Partial: the memory-hints/Advanced-SIMD sub-decoder and the LDRSBT/LDRSHT routing cube are outside the theorems; operand extraction (register numbers, immediates, shifts, P/U/W, lists) is a table-driven three-way correspondence over 268 ARM encodings (all but the branches, whose offsets are C04), not a theorem.'),
  'C07': ('Thumb 16-bit class selection proved for every one of the 2^16 halfwords (evaluation inside Coq); Thumb 32-bit class selection proved for every one of the 2^32 words: top-level routing and 18 groups (shifted register + move/shift, modified immediate, plain binary immediate, load/store multiple, dual/exclusive/table branch, store single, load byte/halfword/word, data-processing register, parallel signed/unsigned, miscellaneous operations, multiply, long multiply, branches and miscellaneous control + CPS/hints + miscellaneous control).',
-         'Partial: the Thumb-32 coprocessor group and the load-halfword hint slots (Rt = 1111) are outside the theorems; operand extraction is a table-driven three-way correspondence over 240 Thumb encodings (incl. !InITBlock() flags and valid SP/PC operands), not a theorem; branch operands are C04.'),
+         'Partial: the Thumb-32 coprocessor group and the load-halfword hint slots (Rt = 1111) are outside the theorems; operand extraction is a table-driven three-way correspondence over 322 Thumb encodings (all but the branches; incl. !InITBlock() flags, UnalignedAllowed and valid SP/PC operands), not a theorem; branch operands are C04.'),
  'C08': ('it_advance = ITAdvance on every state; the ITSTATE schedule for every legal (firstcond, mask) and all 256 states '
          'by exhaustive evaluation inside Coq (bound stated).',
          'Partial: per-step advance inside execute_instruction, flag-setting of 16-bit encodings in IT blocks and the '
